@@ -197,6 +197,10 @@ def check(tier, seed):
         reqs = S.all_requests(rng2, mt, kt)
         for k in range(60 if tier == 'quick' else 2500):
             sc = S.scenario(rng2, reqs, kt, n_req=rng2.choice([1, 1, 2]))
+            if k % 4 == 1:
+                sc = S.on_tty(rng2, sc)            # the real serial backend over a scripted line
+            elif k % 4 == 3:
+                sc = S.on_gpsd(rng2, sc)           # the real gpsd backend over scripted sockets (device paths incl. non-ASCII ones)
             a = S.run_scenario(sc)
             b = S.run_scenario(sc, loglevel=logging.DEBUG)
             n_diff += 1
